@@ -156,6 +156,13 @@ pub fn check_envelope(acc: &mut Acc, e: &Envelope, cid: &dyn Fn() -> String) {
                 Ok(Err(_)) => if want_set.len() == 1 && !matches!(want_set[0], O::Node(..)) { acc.viol(format!("C15|object_for_predicate|{pn}|{sc}|refused"), "single match refused", cid2(), det()) },
                 Err(_) => acc.inc("panics_counted_under_C16"),
             }
+            // optional form: the object iff exactly one match (decorated matches included), None iff none, an error iff several
+            match catch(|| e.optional_object_for_predicate(pe.clone())) {
+                Ok(Ok(Some(g))) => { let w: Option<D> = if want_set.len() == 1 { if let O::Assertion(_, _, ob) = innermost_subject(&want_set[0]) { Some(ob.digest()) } else { None } } else { None }; if w != Some(bind::dg(&g)) { acc.viol(format!("C15|optional_object_for_predicate|{pn}|{sc}|wrong-result"), "returned an object although the matches do not determine it", cid2(), det()) } }
+                Ok(Ok(None)) => if !want_set.is_empty() { acc.viol(format!("C15|optional_object_for_predicate|{pn}|{sc}|reports-none-for-a-present-predicate"), format!("{} assertion(s) match but the lookup reports none", want_set.len()), cid2(), det()) },
+                Ok(Err(_)) => if want_set.len() <= 1 { acc.viol(format!("C15|optional_object_for_predicate|{pn}|{sc}|refused"), format!("{} match(es) reported as an error", want_set.len()), cid2(), det()) },
+                Err(_) => acc.inc("panics_counted_under_C16"),
+            }
             match catch(|| e.objects_for_predicate(pe.clone())) {
                 Ok(g) => { let mut g: Vec<D> = g.iter().map(bind::dg).collect(); let mut w: Vec<D> = want_set.iter().filter_map(|x| if let O::Assertion(_, _, ob) = innermost_subject(x) { Some(ob.digest()) } else { None }).collect(); g.sort(); w.sort(); if g != w && !want_set.iter().any(|x| matches!(x, O::Node(..))) { acc.viol(format!("C15|objects_for_predicate|{pn}|{sc}"), "objects differ", cid2(), det()) } }
                 Err(_) => acc.inc("panics_counted_under_C16"),
@@ -276,6 +283,16 @@ pub fn run(ctx: &Ctx) -> i32 {
         acc
     }).reduce(Acc::new, Acc::merge);
     let mut acc = acc;
+    // assertions that carry their own assertions (salted / annotated), also next to a plain one with the same predicate
+    {
+        let salt = crate::explore::fixed_salt();
+        let dec = Envelope::new_assertion("knows", "Bob").add_salt_instance(salt.clone());
+        let ann = Envelope::new_assertion("email", "a@b").add_assertion("verified", true);
+        for (i, e) in [Envelope::new("Alice").add_assertion_envelope(dec.clone()).unwrap(), Envelope::new("Alice").add_assertion_envelope(dec.clone()).unwrap().add_assertion_envelope(ann.clone()).unwrap().add_assertion("age", 30),
+            Envelope::new("Alice").add_assertion_envelope(dec.clone()).unwrap().add_assertion("knows", "Carol"), Envelope::new("Alice").add_assertion_envelope(ann).unwrap().wrap_envelope().add_assertion_envelope(dec).unwrap()].iter().enumerate() {
+            check_envelope(&mut acc, e, &|| format!("decorated{i}"));
+        }
+    }
     extraction(&mut acc);
     let evals = acc.get("walks") + acc.get("queries") + acc.get("predicate_lookups") + acc.get("extractions");
     let cov = json!({"evaluations": evals,
